@@ -613,6 +613,10 @@ func (w *world) compare(obs, exp State) {
 			o := obs.Op[n]
 			if o.K == "exp" {
 				// which pieces were evicted and reported is what C03 is about
+				if len(w.out.Nonconf) > 0 {
+					// the run has left the specification's behaviour: its expectations no longer apply
+					continue
+				}
 				if !eqInts(or.Ev, er.Ev) {
 					w.viol("C03", "expire-order", fmt.Sprintf("eviction pass (target %d pieces) evicted %v, least-recently-used order requires %v", o.N, or.Ev, er.Ev))
 				}
@@ -887,7 +891,29 @@ func Replay(in []byte) any {
 		out.Events = append(out.Events, ev)
 		w.compare(obs, st.S)
 		out.StepsDone = k + 1
-		if len(out.Nonconf) > 0 || len(out.Violations) > 0 {
+		if len(out.Nonconf) > 0 {
+			// The run has left the specification's behaviour.  Where the specification says an operation has
+			// returned while the real one is parked at a yield point, the real one is let run on (the closest real
+			// schedule), and the store is looked at again.
+			for _, n := range w.names {
+				th := w.threads[n]
+				if st.S.Pc[n] != "done" || !th.live || th.pc == "done" || th.pc == "idle" {
+					continue
+				}
+				for r := 0; r < 8 && th.live && th.pc != "done" && th.pc != "DelWait"; r++ {
+					if !w.run(th) {
+						break
+					}
+				}
+				if th.op.K == "del" && th.pc == "done" {
+					w.delDone = true
+				}
+				w.observe()
+			}
+		}
+		// A difference with the specification's state is reported (once) and the schedule is played on as long as
+		// it can be driven: what the properties forbid is decided on the real store's state after every step.
+		if len(out.Violations) > 0 {
 			break
 		}
 	}
